@@ -39,7 +39,7 @@ def plan(tier):
 
 
 def n_cases(tier):
-    return 2500 if tier == 'thorough' else 300
+    return 12000 if tier == 'thorough' else 300
 
 
 def one_case(rng, tier):
